@@ -127,6 +127,36 @@ def native_concatenate_hang():
     return None
 
 
+def native_pack_agrees():
+    """pack(value, size, append) == fill_taxa() followed by fill(value, size, append), for both settings of append"""
+    import dendropy
+    for append in (True, False):
+        ns = dendropy.TaxonNamespace(["A", "B", "C"])
+        a = dendropy.DnaCharacterMatrix.from_dict({"A": "AC", "B": "A"}, taxon_namespace=ns)
+        b = dendropy.DnaCharacterMatrix.from_dict({"A": "AC", "B": "A"}, taxon_namespace=ns)
+        st = a.default_state_alphabet["-"]
+        a.pack(value=st, size=3, append=append)
+        b.fill_taxa()
+        b.fill(value=st, size=3, append=append)
+        ra = dict((t.label, a[t].symbols_as_string()) for t in a)
+        rb = dict((t.label, b[t].symbols_as_string()) for t in b)
+        if ra != rb:
+            return "pack(value='-', size=3, append=%r) gives %r; fill_taxa() + fill(...) gives %r" % (append, ra, rb)
+    return None
+
+
+def pack_forwards(ctx):
+    """`pack` is fill_taxa() followed by fill(value, size, append): each of the three arguments reaches fill unchanged"""
+    fails = effects.forwarding_obligations(ctx, CM + ":CharacterMatrix.pack", CM + ":CharacterMatrix.fill")
+    if fails:
+        r = native_pack_agrees()
+        for name, p in fails:
+            if r:
+                ctx.fail(name, dict(key="pack|" + r[:60], outcome=r), detail=r, kind="T1")
+            else:
+                ctx.fail(name, dict(key="obligation:%s" % name), detail="pack does not pass %s on to fill" % p, kind="T1", no_input=True)
+
+
 def t1(ctx):
     ctx.assume("C19/T1: lists are modelled by their length; guard-progress is a necessary condition for termination, not a proof; "
                "termination of the concatenate label loop = step obligations (AST) + Lean lemma injective_escapes_finite, with the injectivity of "
@@ -146,6 +176,7 @@ def t1(ctx):
                 ctx.fail(n, dict(key="obligation:%s" % n), detail="termination obligation failed; no hanging input found", kind="T1", no_input=True)
     from contracts import C19rows
     C19rows.t1(ctx)
+    pack_forwards(ctx)
     lean.check_lemma(ctx, "Termination.lean", ["injective_escapes_finite"],
                      hypotheses={"injective_escapes_finite": "step + frame obligations of the concatenate label loop (effects, T1); injectivity of the label format in the counter (assumed)"})
 
